@@ -144,7 +144,7 @@ def gen(ctx):
             ks = sorted({tot - 1, lastblock + (tot - lastblock) // 2, lastblock, lastblock + 1, lastblock - 1, 8192, 4097})
             ks = [k for k in ks if 0 <= k < tot]
             for start_empty in ((False, True) if not ctx.quick else [bool(ti % 3 == 0)]):
-                for kk in ([r.choice([k for k in ks if k >= lastblock])] if ctx.quick else ks):
+                for kk in ([r.choice([k for k in ks if k >= lastblock])] if ctx.quick else r.sample(ks, 3)):
                     items = [nd_spec(rand_array(r, nt, bo, (big_rows,) + tail))]
                     pos = 0
                     if r.random() < 0.5:
